@@ -59,8 +59,9 @@ def tok(t):
 
 
 def _fnv(dom, items):
-    body = " [] ".join('x = %s -> %s' % (tla(k), v) for k, v in items)
-    return "[x \\in %s |-> CASE %s]" % (dom, body) if items else "<<>>"
+    # an explicit function (k1 :> v1 @@ k2 :> v2): a concrete value, evaluated once (a [x \\in S |-> CASE ...] constructor is
+    # evaluated lazily at every application)
+    return "(" + " @@ ".join("%s :> %s" % (tla(k), v) for k, v in items) + ")" if items else "<<>>"
 
 
 def net_record(desc):
